@@ -78,14 +78,20 @@ def processLine (line : String) : String :=
           if !keysClear keys then "BADINPUT\t0\t-" else
           let special : KV := specialKeys.map fun k => (k, "?")
           let model := SExp.list (roles.map fun r => obsSx (modelObs keys special r))
-          let spec :=
+          let obs? : Option (List RoleObs) :=
             match (SExp.parse impl).bind SExp.list? with
-            | some os =>
-              match os.mapM? parseObs with
-              | some obs => caseOk keys roles obs
-              | none => false
-            | none => false
-          s!"{model}\t{if spec then 1 else 0}\t-"
+            | some os => os.mapM? parseObs
+            | none => none
+          let spec := match obs? with | some obs => caseOk keys roles obs | none => false
+          -- a Spec failure is the known finding iff the observation is the as-coded
+          -- expectation and some role lies outside the partial theorem's hypothesis
+          let hyp :=
+            match spec, obs? with
+            | false, some obs =>
+              if decide (obs = roles.map (expectedAsCoded keys)) && roles.any (fun r => !tmplOrderIrrelevant keys r)
+              then "task_template_defaults_over_vars" else "-"
+            | _, _ => "-"
+          s!"{model}\t{if spec then 1 else 0}\t{hyp}"
         | none => "BADINPUT\t0\t-"
       | _, _ => "BADINPUT\t0\t-"
     | _ => "BADINPUT\t0\t-"
